@@ -10,6 +10,7 @@ import (
 	"image/color"
 	"image/png"
 	"io"
+	"strings"
 
 	"github.com/wader/fq/internal/verif/core"
 )
@@ -19,7 +20,7 @@ type pngSpec struct {
 	Size   int    `json:"size"`   // index into pngSizes
 	Color  string `json:"color"`  // gray | gray_alpha | rgb | rgba | palette
 	Depth  int    `json:"depth"`  // 8 | 16 ; palette: 1, 2, 4, 8
-	Text   int    `json:"text"`   // 0 none, 1 tEXt, 2 zTXt, 3 iCCP, 4 all three
+	Text   int    `json:"text"`   // 0 none, 1 tEXt, 2 zTXt, 3 iCCP, 4 all three, 5/6 zTXt of 0/1 bytes, 7 tEXt: 79 byte keyword, empty text
 	// Meta: header field grid file: gAMA, pHYs and tIME chunks with these values follow IHDR
 	Meta *pngMeta `json:"meta,omitempty"`
 }
@@ -254,6 +255,16 @@ func pngBuild(spec any) *genFile {
 		exp.ZKeyword, exp.ZText = "Comment", "compressed text compressed text compressed text"
 		extra = append(extra, pngChunkBytes("zTXt", append(append([]byte(exp.ZKeyword), 0, 0), zlibBytes([]byte(exp.ZText))...))...)
 	}
+	// edges of the text chunks: compressed texts of 0 and 1 bytes, the longest keyword (79)
+	// with an empty uncompressed text
+	if sp.Text == 5 || sp.Text == 6 {
+		exp.ZKeyword, exp.ZText = "Comment", strings.Repeat("x", sp.Text-5)
+		extra = append(extra, pngChunkBytes("zTXt", append(append([]byte(exp.ZKeyword), 0, 0), zlibBytes([]byte(exp.ZText))...))...)
+	}
+	if sp.Text == 7 {
+		exp.Keyword, exp.Text = strings.Repeat("K", 79), ""
+		extra = append(extra, pngChunkBytes("tEXt", append(append([]byte(exp.Keyword), 0), exp.Text...))...)
+	}
 	if sp.Text == 3 || sp.Text == 4 {
 		exp.ProfileName, exp.Profile = "prof", minimalICC()
 		extra = append(extra, pngChunkBytes("iCCP", append(append([]byte(exp.ProfileName), 0, 0), zlibBytes(exp.Profile)...))...)
@@ -311,7 +322,7 @@ func pngEnum(r *core.Run, emit func(any)) {
 					depths = []int{1, 2, 4, 8}
 				}
 				for _, d := range depths {
-					for text := 0; text <= 4; text++ {
+					for text := 0; text <= 7; text++ {
 						emit(&pngSpec{Writer: w, Size: size, Color: col, Depth: d, Text: text})
 					}
 				}
